@@ -75,4 +75,24 @@ def portableSignalName : Nat → Option String
   | 8 => some "FPE" | 9 => some "KILL" | 11 => some "SEGV" | 13 => some "PIPE" | 14 => some "ALRM" | 15 => some "TERM"
   | _ => none
 
+/-- which arm of the displayer's `status_str` reports a result (the translator's key, Gen.statusWords) -/
+def statusKey : Res → String
+  | .pass => "Pass"
+  | .leak => "Leak"
+  | .fail (some _) _ => "Fail/signal"
+  | .fail none true => "Fail/leaked"
+  | .fail none false => "Fail"
+  | .execFail => "ExecFail"
+  | .timeout => "Timeout"
+
+/-- the word the property's five outcomes are reported with on a status line (a signal: `SIG<name>` / `ABORT SIG <n>`) -/
+def statusWord : Res → String
+  | .pass => "PASS"
+  | .leak => "LEAK"
+  | .fail (some _) _ => "SIG|ABORT SIG"
+  | .fail none true => "FAIL + LEAK"
+  | .fail none false => "FAIL"
+  | .execFail => "XFAIL"
+  | .timeout => "TIMEOUT"
+
 end NextestModel.Classify
